@@ -191,7 +191,7 @@ pub fn make_deals(rng: &mut Rng, n: usize) -> Vec<Deal> {
             // wheel on the board: tie; steel wheel (five-high straight flush) against quads
             (card(k, 0) | card(q, 1), card(j, 2) | card(n9, 3), [card(a, 0) | card(n2, 1) | card(n3, 2), card(n4, 3), card(n5, 0)]),
             (card(a, 1) | card(n2, 1), card(k, 0) | card(k, 2), [card(n3, 1) | card(n4, 1) | card(n5, 1), card(k, 1), card(k, 3)]),
-            // the weakest hands there are: seven-high against eight-high
+            // low two pair against a low pair; a high-card fight decided by the third kicker
             (card(n2, 0) | card(n3, 1), card(n2, 1) | card(n8, 2), [card(n4, 2) | card(n5, 3) | card(n7, 0), card(n3, 3), card(n2, 3)]),
             (card(n7, 0) | card(n2, 1), card(n8, 1) | card(n2, 2), [card(n3, 2) | card(n4, 3) | card(n6, 0), card(j, 3), card(k, 3)]),
         ]);
